@@ -4,6 +4,7 @@
 package nack
 
 import (
+	"math"
 	"math/rand"
 	"slices"
 	"sync"
@@ -186,7 +187,10 @@ func (n *GeneratorInterceptor) loop(rtcpWriter interceptor.RTCPWriter) {
 							filteredMissingPacket[count] = missingSeq
 							count++
 						}
-						n.nackCountLogs[ssrc][missingSeq]++
+						// the counter saturates: wrapping around would let the limit be exceeded after 65536 ticks
+						if n.nackCountLogs[ssrc][missingSeq] < math.MaxUint16 {
+							n.nackCountLogs[ssrc][missingSeq]++
+						}
 					}
 
 					if count == 0 {
